@@ -2823,6 +2823,6 @@ impl Scenario for C14 {
         ]
     }
     fn watchdog_secs(&self) -> u64 {
-        120
+        300
     }
 }
